@@ -87,6 +87,7 @@ func main() {
 	out := flag.String("out", "", "output directory for rewritten files")
 	simDir := flag.String("sim", "/verif/sim", "harness source directory mapped to <repo>/zzverif")
 	pkgsFlag := flag.String("pkgs", "", "comma separated package dirs relative to repo")
+	injectDir := flag.String("inject", "", "directory of files added to repo packages (T6 accessors), laid out like the repo")
 	flag.Parse()
 	if *out == "" || *pkgsFlag == "" {
 		fmt.Fprintln(os.Stderr, "usage: instrument -repo R -out O -pkgs a,b,c")
@@ -156,6 +157,17 @@ func main() {
 		overlay[filepath.Join(*repo, "zzverif", rel)] = path
 		return nil
 	})
+	if *injectDir != "" {
+		filepath.Walk(*injectDir, func(path string, info os.FileInfo, err error) error {
+			if err != nil || info.IsDir() || !strings.HasSuffix(path, ".go") {
+				return nil
+			}
+			rel, _ := filepath.Rel(*injectDir, path)
+			dst := filepath.Join(*repo, filepath.Dir(rel), "zzverif_"+filepath.Base(rel))
+			overlay[dst] = path
+			return nil
+		})
+	}
 	ov := map[string]interface{}{"Replace": overlay}
 	b, _ := json.MarshalIndent(ov, "", " ")
 	if err := os.WriteFile(filepath.Join(*out, "overlay.json"), b, 0o644); err != nil {
